@@ -276,7 +276,13 @@ func genSeg(r *rand.Rand, helloLen int) devsim.Seg {
 }
 
 // GenDesc draws one case for the given table cell.
-func GenDesc(r *rand.Rand, c cell, echo bool) Desc {
+// lzForms are zero-padded (non-canonical but legal xs:unsignedInt / YANG uint32) lexical forms of
+// a session-id; their value is the decimal reading.
+var lzForms = []string{"01", "007", "010", "0042", "08", "0099", "0000000019", "00004294967295", "09", "0777", "00", "000"}
+
+// GenDesc draws one case for the given table cell. lz >= 0 makes the session-id a zero-padded
+// lexical form (lz selects it); lz < 0 draws a canonical one (or none).
+func GenDesc(r *rand.Rand, c cell, echo bool, lz int) Desc {
 	d := Desc{Adv10: c.Adv10, Adv11: c.Adv11, Preferred: c.Pref, Echo: echo}
 	d.Decl = []string{"", `<?xml version="1.0" encoding="UTF-8"?>`, `<?xml version="1.0" encoding="UTF-8"?>`, `<?xml version="1.0"?>`, `<?xml version="1.0" encoding="utf-8" standalone="yes"?>`}[r.Intn(5)]
 	d.Layout = []string{"oneline", "multiline", "indented"}[r.Intn(3)]
@@ -362,6 +368,17 @@ func GenDesc(r *rand.Rand, c cell, echo bool) Desc {
 	default:
 		d.SessionID = strconv.FormatUint(1+uint64(r.Int63n(1<<32-1)), 10)
 	}
+	if lz >= 0 {
+		if k := lz % (len(lzForms) + 4); k < len(lzForms) {
+			d.SessionID = lzForms[k]
+		} else {
+			v := sidChoices[r.Intn(len(sidChoices))]
+			if r.Intn(2) == 0 {
+				v = 1 + uint64(r.Int63n(1<<32-1))
+			}
+			d.SessionID = strings.Repeat("0", 1+r.Intn(6)) + strconv.FormatUint(v, 10)
+		}
+	}
 	if d.SessionID != "" {
 		d.SidPos = []string{"after", "after", "before"}[r.Intn(3)]
 	}
@@ -411,11 +428,16 @@ func gen(tier string, seed int64) []mon.Case {
 		panic("c09: decision table and cell enumeration disagree")
 	}
 	for k := 0; k < perCell; k++ {
-		for _, c := range cells {
+		for ci, c := range cells {
 			if _, ok := table[c]; !ok {
 				panic("c09: cell missing from the decision table")
 			}
-			add(GenDesc(r, c, k%2 == 1))
+			// a fixed share (every 5th layout of every cell) carries a zero-padded session-id
+			lz := -1
+			if k%5 == 4 {
+				lz = k/5 + ci
+			}
+			add(GenDesc(r, c, k%2 == 1, lz))
 		}
 	}
 	for k := 0; k < perNoHello; k++ {
@@ -485,6 +507,12 @@ func sidClass(s string) string {
 		return "missing"
 	}
 	v, _ := strconv.ParseUint(s, 10, 64)
+	if len(s) > 1 && s[0] == '0' {
+		if strings.ContainsAny(s, "89") {
+			return "zero-padded-with-8-or-9"
+		}
+		return "zero-padded"
+	}
 	switch {
 	case v < 1<<16:
 		return "<2^16"
@@ -688,7 +716,7 @@ func RunDesc(d Desc) mon.Result {
 		case timedOut(err):
 			judgeTimeout("open", err, len(hello))
 		case strings.Contains(strings.ToLower(err.Error()), "sessionid"):
-			bad(0, "c09/session-id-rejected:"+sidClass(d.SessionID), "Open failed with %v; the hello's session-id %s is legal", err, d.SessionID)
+			bad(0, "c09/session-id-rejected:"+sidClass(d.SessionID), "Open failed with %v; the hello's session-id %q is a legal lexical form", err, d.SessionID)
 		default:
 			bad(0, "c09/rejected:"+cellName, "Open failed with %v where the table says version %s", err, want)
 		}
@@ -909,13 +937,14 @@ func init() {
 		Level: "exploration",
 		Rule: "The 12 cells (advertised subset of {base:1.0, base:1.1} x preferred in {none, 1.0, 1.1}) are enumerated exhaustively in both tiers (plus 8 kinds of well-framed " +
 			"first message without hello element x 3 preferences); per cell PRNG-generated hellos (XML declaration or none, one-line / multi-line / indented, nc: prefix on every element or none, " +
-			"0-40 extra capabilities incl. URNs that merely contain a base URN, shuffled order, duplicates, session-id 1..2^32-1 before/after the capabilities or absent, LF around the delimiter) " +
+			"0-40 extra capabilities incl. URNs that merely contain a base URN, shuffled order, duplicates, session-id 1..2^32-1 before/after the capabilities or absent, every 5th case a zero-padded lexical form (01, 010, 08, 0000000019, 00004294967295, ...), LF around the delimiter) " +
 			"x echo on/off x read segmentation x read delay. Non-trivial = prefixed element names, or the server's first message delivered in >= 2 transport reads, or a cell that must fail. " +
 			"Distinct = distinct descriptor hash.",
 		Assumptions: []string{
 			"the server's first message is complete, framed with the end-of-message delimiter, LF-only (no CR), and arrives without transport faults (stalls/EOF are C05/C06)",
 			"the hello is a well-formed XML document whose elements all carry the same prefix (nc: or none); capability and session-id elements carry no attributes and no surrounding white space; each capability element sits on one line",
 			"no transport read crosses the end of a server message (message marks); the server answers every rpc completely",
+			"session-id lexical forms judged: decimal digit strings with or without leading zeros (legal xs:unsignedInt / YANG uint32 forms; value = decimal reading, strconv.ParseUint(text, 10, 64) of the text encoding/xml reads); a sign (+5), hex, and white space inside the element are outside the judged set (the library's digit-only pattern does not recognise them and reports 0)",
 			"expected outcome = the 12-cell table written from the property statement, applied to the capability list that encoding/xml reads from the bytes the server sent (exact URI equality)",
 			"trusted base: ncwire strict codec, ncsim server model, encoding/xml, the table (12 lines)",
 			"timeouts 10 s (open) / 6 s (rpc); a timeout is judged only if every needed byte had been delivered and the load canary is quiet, else inconclusive",
